@@ -64,7 +64,10 @@ type signCall struct {
 
 // fakeChain implements miner.Chain and miner.SyncManager.
 type fakeChain struct {
-	sc *scenario
+	// switchAtTemplate (class tip-at-template): becomes the best node inside the first NewBlockTemplate call
+	switchAtTemplate *blockchain.BlockNode
+	switchedAt       time.Time
+	sc               *scenario
 
 	mu        sync.Mutex
 	cur       int // current round, -1 = no template on the tip
@@ -151,6 +154,12 @@ func (c *fakeChain) NewBlockTemplate(addrs []massutil.Address, ch chan interface
 	c.templates[ri]++
 	if c.accepted[r.Height] > 0 {
 		c.reoffered++
+	}
+	if c.switchAtTemplate != nil {
+		// the template was snapshot on the old tip; a better tip is connected before the miner gets to work on it
+		c.best, c.cur = c.switchAtTemplate, -1
+		c.switchAtTemplate = nil
+		c.switchedAt = time.Now()
 	}
 	c.mu.Unlock()
 	pt, bt := r.templates()
